@@ -59,7 +59,8 @@ pub fn trivia_variant(src: &str, seed: u64) -> Option<String> {
                         changed += 1;
                     }
                     1 if !prev_is_comment => {
-                        out.push_str(" # c");
+                        // comments also carry wide, combining and 4-byte characters
+                        out.push_str([" # c", " # é", " # 語 note", " # a\u{301}😀", " # à"][(h / 16 % 5) as usize]);
                         out.push_str(text);
                         changed += 1;
                     }
@@ -76,7 +77,7 @@ pub fn trivia_variant(src: &str, seed: u64) -> Option<String> {
                     4 => {
                         out.push_str(text);
                         out.push_str(&next_indent);
-                        out.push_str("# comment line\n");
+                        out.push_str(["# comment line\n", "# commentaire é\n", "# 語語 😀\n"][(h / 16 % 3) as usize]);
                         changed += 1;
                     }
                     5 => {
@@ -87,7 +88,7 @@ pub fn trivia_variant(src: &str, seed: u64) -> Option<String> {
                     6 => {
                         out.push_str(text);
                         out.push_str(&next_indent);
-                        out.push_str("#- multi\n line -#\n");
+                        out.push_str(["#- multi\n line -#\n", "#- 語\n é -#\n"][(h / 16 % 2) as usize]);
                         changed += 1;
                     }
                     _ => out.push_str(text),
@@ -95,7 +96,7 @@ pub fn trivia_variant(src: &str, seed: u64) -> Option<String> {
             }
             // `debug` records the source text of its expression, comments included
             Token::Whitespace if string_depth == 0 && i > 0 && toks[i - 1].token != Token::NewLine && h % 23 == 0 && !src.contains("debug") => {
-                out.push_str(" #- c -# ");
+                out.push_str([" #- c -# ", " #- é -# ", " #- 😀 -# "][(h / 23 % 3) as usize]);
                 changed += 1;
             }
             _ => out.push_str(text),
